@@ -57,6 +57,8 @@ def classify_name_emission(facts, fn, lo, hi):
     hs = helpers_deep(facts, fn, lo, hi)
     for h in hs:
         ps = TK.name_pass_set_hir(facts, h)
+        if ps is None and TK.is_name_escaper_by_constants(facts, h):
+            ps = TK.name_pass_set_match(facts, h)
         if ps is not None:
             return ("table", ps, h)
     for h in hs:
